@@ -39,7 +39,7 @@ def suite_hist(ctx):
     for _ in range(ctx.n(500, 10000)):
         hcfg = hist.HCfg(rt=rng.choice([None, 5120, 300]), sw=tuple(rng.random() < 0.7 for _ in range(3)), std=rng.choice([2006, 2013, 2020]),
                          cb=rng.random() < 0.3)
-        ops, meta = hist.gen_history(rng, 'residue', rng.randrange(3, ctx.n(9, 40)), hcfg)
+        ops, meta = hist.gen_history(rng, rng.choice(['residue', 'residue', 'spr']), rng.randrange(3, ctx.n(9, 40)), hcfg)
         out, tr, client, conn = hist.run_history(hcfg, ops)
         line = hcfg.line(ops)
         lines.append(line)
@@ -199,4 +199,54 @@ def suite_ctx(ctx):
     return s
 
 
-SUITES = [suite_hist, suite_shape, suite_ctx]
+def suite_direct(ctx):
+    """send_request called directly (default and per-call timeout, request-level suppress flag) with frames already queued"""
+    from .. import clientlib as cl
+    from udsoncan import Request
+    from ..core import onat, b01
+    s = Suite('direct')
+    rng = ctx.rng
+    svcs = cl.services_by_name()
+    lines, impl = [], []
+    for _ in range(ctx.n(400, 8000)):
+        svc = rng.choice(['ECUReset', 'TesterPresent', 'ReadDataByIdentifier', 'RoutineControl', 'TransferData', 'RequestTransferExit'])
+        sid = svcs[svc]._sid
+        percall = rng.choice([None, None, 0, 7, 300, 5000])
+        rt = rng.choice([None, 100, 5120])
+        has_sf = svcs[svc].use_subfunction()
+        rspr = has_sf and rng.random() < 0.15
+        kind = rng.choice(['good', 'good', 'neg', 'silence', 'pend_good'])
+        good = bytes([sid + 0x40, 1, 2])
+        arr = {'good': [(1, good)], 'neg': [(1, bytes([0x7F, sid, 0x31]))], 'silence': [], 'pend_good': [(1, bytes([0x7F, sid, 0x78])), (2, good)]}[kind]
+        if percall == 0:
+            arr = [(0, p) for _, p in arr]
+        stale = [rng.choice([good, bytes([0x7F, sid, 0x22]), bytes([0x7F, sid, 0x78]), b'\x7e\x00', b'']) for _ in range(rng.randrange(0, 4))]
+        cfg = cl.Cfg(rt=rt, p2=50, p2s=80, cb=rng.random() < 0.5)
+        client, conn = cl.make_client(cfg)
+        conn.script = list(arr)
+        conn.stale = list(stale)
+        sf = 1 if has_sf else None
+        req = Request(svcs[svc], subfunction=sf, suppress_positive_response=rspr)
+        tmo = -1 if percall is None else percall * cl.TICK
+        obs = cl.observe(conn, lambda: client.send_request(req, timeout=tmo))
+        line = 'send %s svc=%s sf=%s rspr=%s data=- timeout=%s arr=%s' % (cfg.line(), svc, onat(sf), b01(rspr), onat(percall), cl.arrivals_str(arr))
+        lines.append(line)
+        impl.append(obs)
+        kinds = [o[0] for o in conn.log if o[0] != 'callback']
+        rec = {'site': 'send_request', 'input': line, 'stale': [x.hex() for x in stale], 'per_call_timeout': percall}
+        if kinds[:2] != ['flush', 'send'] or kinds.count('send') != 1 or kinds.count('flush') != 1 or any(k != 'wait' for k in kinds[2:]):
+            s.fail(dict(rec, observed=str(kinds), required='flush, one send, then only waits'))
+        # the same call with an empty queue must look the same
+        client2, conn2 = cl.make_client(cfg)
+        conn2.script = list(arr)
+        obs2 = cl.observe(conn2, lambda: client2.send_request(Request(svcs[svc], subfunction=sf, suppress_positive_response=rspr), timeout=tmo))
+        if obs2 != obs:
+            s.fail(dict(rec, observed=obs, required='as with an empty receive queue: ' + obs2))
+        s.count('stale=%d' % len(stale))
+        s.count('timeout=' + ('default' if percall is None else 'per-call'))
+    core.compare(s, lines, core.drv_batch(lines), impl, lambda i, o: True)
+    s.sample({'line': lines[0], 'impl': impl[0]})
+    return s
+
+
+SUITES = [suite_hist, suite_shape, suite_ctx, suite_direct]
